@@ -8,12 +8,15 @@
 package main
 
 import (
+	"bytes"
 	"context"
 	"encoding/hex"
 	"encoding/json"
 	"errors"
 	"flag"
 	"fmt"
+	"github.com/hslam/socket"
+	"net"
 	"os"
 	"os/exec"
 	"path/filepath"
@@ -107,10 +110,15 @@ var fams = map[string]family{
 	"pb":   {"PB", func(t uint64, d []byte) interface{} { return &mPB{t, d} }, func(m interface{}) (uint64, []byte) { x := m.(*mPB); return x.T, x.D }},
 }
 
-type Svc struct{ execs map[uint64]int }
+type Svc struct {
+	mu    sync.Mutex
+	execs map[uint64]int
+}
 
 func (s *Svc) do(t uint64, d []byte) (uint64, []byte, error) {
+	s.mu.Lock()
 	s.execs[t]++
+	s.mu.Unlock()
 	if t == 13 {
 		return 0, nil, errors.New("unlucky thirteen")
 	}
@@ -272,6 +280,9 @@ func runOne(c cfg, port int, dir string) (transcript []string, note string) {
 			note += fmt.Sprintf("request %d executed %d times; ", t, svc.execs[t])
 		}
 	}
+	if b := burst(c, addr, f); b != "" {
+		note += b
+	}
 	conn.Close()
 	srv.Close()
 	if !c.poll { // a poll-mode listener of the netpoll dependency does not return promptly: recorded in DESIGN, not judged
@@ -377,6 +388,8 @@ func main() {
 					port := base + (i*3+attempt*7)%6000
 					ctx, cancel := context.WithTimeout(context.Background(), 60*time.Second)
 					cmd := exec.CommandContext(ctx, os.Args[0], "one", "-cfg", c.String(), "-port", strconv.Itoa(port), "-dir", *dir)
+					var stderr bytes.Buffer
+					cmd.Stderr = &stderr
 					b, err := cmd.Output()
 					cancel()
 					r = result{Cfg: c.String()}
@@ -384,6 +397,12 @@ func main() {
 						json.Unmarshal(b, &r)
 					} else {
 						r.Note = "subprocess: " + err.Error()
+						if e := stderr.String(); e != "" {
+							if len(e) > 600 {
+								e = e[:600]
+							}
+							r.Note += ": " + e
+						}
 					}
 					r.Attempts = attempt
 					r.Earlier = earlier
@@ -412,4 +431,86 @@ func main() {
 			os.Exit(1)
 		}
 	}
+}
+
+// burst: a second, raw connection (plain tcp / unix only) writes 100 requests in ONE write, so that
+// the server finds many complete frames in a single read, and then waits for the 100 responses.
+func burst(c cfg, addr string, f family) string {
+	if c.tls || (c.network != "tcp" && c.network != "unix") {
+		return ""
+	}
+	var enc rpc.Encoder
+	switch c.enc {
+	case "", "pb":
+		enc = rpc.NewPBEncoder()
+	case "code":
+		enc = rpc.NewCODEEncoder()
+	case "json":
+		enc = rpc.NewJSONEncoder()
+	}
+	var body rpc.Codec
+	switch c.codec {
+	case "json":
+		body = rpc.NewJSONCodec()
+	case "code":
+		body = rpc.NewCODECodec()
+	case "pb":
+		body = rpc.NewPBCodec()
+	}
+	if enc == nil || body == nil {
+		return ""
+	}
+	const n = 100
+	var stream []byte
+	for i := 0; i < n; i++ {
+		args, err := body.Marshal(nil, f.newMsg(uint64(200+i%50), payload(byte(i), 5+i%20)))
+		if err != nil {
+			return "burst: cannot encode arguments: " + err.Error() + "; "
+		}
+		r := enc.NewRequest()
+		r.SetSeq(uint64(1000 + i))
+		r.SetServiceMethod("Svc." + f.method)
+		r.SetArgs(append([]byte(nil), args...))
+		frame, err := enc.NewCodec().Marshal(nil, r)
+		if err != nil {
+			return "burst: cannot encode a request header: " + err.Error() + "; "
+		}
+		// socket.Messages framing: uvarint length prefix
+		l := uint64(len(frame))
+		for l >= 0x80 {
+			stream = append(stream, byte(l)|0x80)
+			l >>= 7
+		}
+		stream = append(stream, byte(l))
+		stream = append(stream, frame...)
+	}
+	raw, err := net.Dial(c.network, addr)
+	if err != nil {
+		return "burst: dial: " + err.Error() + "; "
+	}
+	defer raw.Close()
+	if _, err := raw.Write(stream); err != nil {
+		return "burst: write: " + err.Error() + "; "
+	}
+	raw.SetReadDeadline(time.Now().Add(10 * time.Second))
+	msgs := socket.NewMessages(raw, false)
+	seen := map[uint64]bool{}
+	for i := 0; i < n; i++ {
+		m, err := msgs.ReadMessage(nil)
+		if err != nil {
+			return fmt.Sprintf("burst of %d requests in one write: only %d responses arrived (%v); ", n, i, err)
+		}
+		res := enc.NewResponse()
+		if err := enc.NewCodec().Unmarshal(m, res); err != nil {
+			return "burst: undecodable response: " + err.Error() + "; "
+		}
+		if e := res.GetError(); len(e) > 0 {
+			return "burst: request " + strconv.FormatUint(res.GetSeq(), 10) + " failed: " + string(e) + "; "
+		}
+		seen[res.GetSeq()] = true
+	}
+	if len(seen) != n {
+		return fmt.Sprintf("burst: %d distinct responses for %d requests; ", len(seen), n)
+	}
+	return ""
 }
